@@ -26,11 +26,11 @@ type Filter struct {
 // Req is one request of a history. Header fields are lists of header LINES (nil = header absent);
 // the filter reads them with Header.Get, i.e. sees the first line only.
 type Req struct {
-	R     routing.Req
+	R      routing.Req
 	Origin []string
-	ACRM  []string
-	ACRH  []string
-	Serve bool // through Container.ServeHTTP (the ServeMux may answer without reaching the filter chain) instead of Container.Dispatch
+	ACRM   []string
+	ACRH   []string
+	Serve  bool // through Container.ServeHTTP (the ServeMux may answer without reaching the filter chain) instead of Container.Dispatch
 }
 
 func first(vs []string) string {
@@ -52,15 +52,15 @@ type Hdr struct{ Name, Value string }
 
 // Obs is what was observed for one request: real container vs. twin.
 type Obs struct {
-	Reached    bool  // the filter chain ran (the logger BEFORE the CORS filter logged)
-	Extra      []Hdr // header lines on the real response and not on the twin's (multiset difference), sorted
-	Missing    int   // header lines of the twin's response the real one lacks
-	Status     int
-	TwinStatus int
-	BodySame   bool
-	LogSame    bool
-	Later      bool // something behind the CORS filter ran
-	Panic      string
+	Reached      bool  // the filter chain ran (the logger BEFORE the CORS filter logged)
+	Extra        []Hdr // header lines on the real response and not on the twin's (multiset difference), sorted
+	Missing      int   // header lines of the twin's response the real one lacks
+	Status       int
+	TwinStatus   int
+	BodySame     bool
+	LogSame      bool
+	Later        bool // something behind the CORS filter ran
+	Panic        string
 	Log, TwinLog []string
 }
 
